@@ -1,0 +1,25 @@
+//go:build verif
+
+// Package verifhook holds the instrumentation points used by the verification harnesses.
+// It is only active when the module is built with the `verif` build tag.
+package verifhook
+
+// SpawnHook, when set, is offered every runnable the default executors are about to start on a
+// new goroutine; returning true means the hook has taken ownership of running it.
+var SpawnHook func(run func()) bool
+
+func Spawn(run func()) bool {
+	if h := SpawnHook; h != nil {
+		return h(run)
+	}
+	return false
+}
+
+// YieldHook, when set, is called at the named synchronisation points.
+var YieldHook func(point string)
+
+func Yield(point string) {
+	if h := YieldHook; h != nil {
+		h(point)
+	}
+}
